@@ -94,6 +94,33 @@ theorem exec_seq_assoc (fuel : Nat) (a b c : St) (s : State F) :
   · simp only [h1, if_true]
   · simp only [h1, if_false]
 
+/-- a block `a₁; a₂; …; aₖ` continued by `k` (the translator's right-nested form) -/
+def seqK : List St → St → St
+  | [], k => k
+  | a :: as, k => .seq a (seqK as k)
+
+/-- the block alone -/
+def seqL : List St → St
+  | [] => .skip
+  | [a] => a
+  | a :: b :: r => .seq a (seqL (b :: r))
+
+/-- a block can be split off the front of a sequence -/
+theorem exec_seqK (fuel : Nat) : ∀ (as : List St) (a : St) (k : St) (s : State F),
+    exec fuel (seqK (a :: as) k) s = exec fuel (.seq (seqL (a :: as)) k) s := by
+  intro as
+  induction as with
+  | nil => intro a k s; rfl
+  | cons b r ih =>
+    intro a k s
+    have h1 : exec fuel (seqK (a :: b :: r) k) s = exec fuel (.seq a (.seq (seqL (b :: r)) k)) s := by
+      simp only [seqK, exec_seq]
+      have := ih b k
+      simp only [seqK, exec_seq] at this
+      simp only [this]
+    rw [h1, exec_seq_assoc]
+    rfl
+
 /-! ### controlled unfolding of expressions (never through an array read) -/
 
 theorem FE.ok_bin (s : State F) (op : BinOp) (a b : FE) : (FE.bin op a b).ok s = (a.ok s && b.ok s) := by
